@@ -68,6 +68,9 @@ CLAIMED = {
  "C08": ("table agreement by partial evaluation: the printer's bracket guard is interpreted (pure SSA evaluator) over every (parent operator, child operator, position) of the extracted grammar and compared with the closed-form needs-brackets relation of the Pratt parser; exhaustiveness of templates vs the shape table; errpath verify-before-write rule",
          "Decides exhaustively over the grammar table (≈700 operator combinations in 6 classes) that parentheses are emitted wherever re-parsing needs them; that every producible node kind/arity has a template or special case; that string rendering consults the raw/interpolating flag; that the format tool writes only text it re-parsed and compared. "
          "Two classes violate the rule today and are pinned by the suite (right operand of equal binding; raw strings re-quoted): known findings. Idempotence, comments and layout are not decided.", "3/C08"),
+ "C05": ("provenance and ordering rules on SSA (fresh call frame, bind-before-parent), who-calls-which scope mutator per runtime type via the extracted providerMap, reader/writer agreement of map key representations in package scope",
+         "Decides the clauses of C05 that are visible in the shape of the code: call frames are allocated per call and parameters are bound before the frame is parented to the declaration scope; let uses only SetLocalValue and assignment only SetValue; "
+         "the key representations tried when reading an ECAL map equal those used when writing (violated today: known finding, `m := {1:2}; m[1] := 3; m[1]` → 2). Name resolution, closures, objects and the list/map builtins are runtime behaviour and not decided.", "3/C05"),
 }
 
 NOT_YET = "check not built yet in this session (see DESIGN.md section 3 for the planned static rule)"
